@@ -216,7 +216,14 @@ func (s *LinearState) Rem(ctx *Context, id string) (bool, error) {
 	timer := NewTimer(ctx, "LinearState.Rem")
 	defer timer.Stop()
 
+	// The hook's look at the fact and the removal are one step (as
+	// in IndexedState.Rem): otherwise two concurrent removals of
+	// one id both find it and both report success.
+	s.slock(ctx, false)
+	defer s.sunlock(ctx, false)
 	if s.remHook != nil {
+		s.withPrivilege(ctx)
+		defer s.withoutPrivilege(ctx)
 		if err := s.remHook(ctx, s, id); err != nil {
 			Log(ERROR, ctx, "LinearState.Rem", "state", s.Name, "error", err,
 				"id", id, "when", "remHook")
@@ -225,7 +232,7 @@ func (s *LinearState) Rem(ctx *Context, id string) (bool, error) {
 		}
 	}
 
-	return s.rem(ctx, id, true)
+	return s.rem(ctx, id, false)
 }
 
 func (s *LinearState) rem(ctx *Context, id string, lock bool) (bool, error) {
